@@ -39,13 +39,30 @@ FDD(flags)   == Bit(flags, 3)
 FUtf8(flags) == Bit(flags, 11)
 
 \* ---- ZIP64 rules -------------------------------------------------------
-\* which of <<usize, csize, offset>> must be carried by the central ZIP64 record
+\* a value that does not fit its 32-bit field
 NeedZ64(v) == v > Thr32
+\* which of <<usize, csize, offset>> must be carried by the central ZIP64 record: every value whose 32-bit
+\* field would hold the sentinel - a value that does not fit, AND a value EQUAL to the sentinel, which is
+\* indistinguishable from the marker (APPNOTE 4.4.8/4.4.9/4.4.16; D17).  NeedZ64C is the rule; the
+\* configuration MC_Writer_central_gt overrides it with NeedZ64 (the defect) as a spec mutant.
+NeedZ64C(v) == v >= Thr32
 CentralZ64Fields(us, cs, off) ==
-   (IF NeedZ64(us) THEN <<us>> ELSE <<>>) \o (IF NeedZ64(cs) THEN <<cs>> ELSE <<>>)
-     \o (IF NeedZ64(off) THEN <<off>> ELSE <<>>)
+   (IF NeedZ64C(us) THEN <<us>> ELSE <<>>) \o (IF NeedZ64C(cs) THEN <<cs>> ELSE <<>>)
+     \o (IF NeedZ64C(off) THEN <<off>> ELSE <<>>)
 CentralZ64Len(us, cs, off) ==
    LET n == Len(CentralZ64Fields(us, cs, off)) IN IF n = 0 THEN 0 ELSE 4 + 8 * n
+\* how every reader decodes a central record (APPNOTE 4.5.3): for each of usize, csize, offset WHOSE 32-BIT FIELD
+\* HOLDS THE SENTINEL, in this fixed order, the next 8-byte value of the ZIP64 record `vals`; `has` = a ZIP64
+\* record is present.  exact = the record held precisely the values the sentinels call for.
+ParseZ64(us32, cs32, off32, has, vals) ==
+   LET a == IF has /\ us32 = Thr32 THEN 1 ELSE 0
+       b == IF has /\ cs32 = Thr32 THEN 1 ELSE 0
+       c == IF has /\ off32 = Thr32 THEN 1 ELSE 0
+       at(k) == IF k <= Len(vals) THEN vals[k] ELSE Thr32           \* a missing value leaves the sentinel in place
+   IN [exact |-> Len(vals) = a + b + c,
+       us  |-> IF a = 1 THEN at(1) ELSE us32,
+       cs  |-> IF b = 1 THEN at(a + 1) ELSE cs32,
+       off |-> IF c = 1 THEN at(a + b + 1) ELSE off32]
 \* ZIP64 end records are required when ...
 NeedZ64End(n, cdsize, cdoff) == n > ThrN \/ cdsize > Thr32 \/ cdoff > Thr32
 
